@@ -102,6 +102,11 @@ fn walk_font(key: &str, font: &Font, r: &impl Resolve, o: &mut Obs, w: &WalkOpts
 }
 
 fn walk_xobject(key: &str, x: &XObject, r: &impl Resolve, o: &mut Obs) {
+    walk_xobject_d(key, x, r, o, None, 0)
+}
+
+/// `nested`: options and remaining depth for walking the resources of a form
+fn walk_xobject_d(key: &str, x: &XObject, r: &impl Resolve, o: &mut Obs, nested: Option<&WalkOpts>, depth: usize) {
     match x {
         XObject::Image(img) => {
             o.put(|| format!("{}.image", key), || format!("{}x{} bpc={:?} mask={}", img.width, img.height, img.bits_per_component, img.image_mask));
@@ -117,6 +122,15 @@ fn walk_xobject(key: &str, x: &XObject, r: &impl Resolve, o: &mut Obs) {
                 Ok(d) => o.put(|| format!("{}.stream_data", key), || bytes_s(&d)),
                 Err(e) => o.err(|| format!("{}.stream_data", key), &e),
             }
+            if let Some(sm) = img.smask {
+                match r.get(sm) {
+                    Ok(s) => match Stream::data(&*s, r) {
+                        Ok(d) => o.put(|| format!("{}.smask", key), || format!("{}x{} {}", s.info.width, s.info.height, bytes_s(&d))),
+                        Err(e) => o.err(|| format!("{}.smask.data", key), &e),
+                    },
+                    Err(e) => o.err(|| format!("{}.smask", key), &e),
+                }
+            }
         }
         XObject::Form(form) => {
             o.put(|| format!("{}.form", key), || rect_s(&form.dict().bbox));
@@ -126,9 +140,55 @@ fn walk_xobject(key: &str, x: &XObject, r: &impl Resolve, o: &mut Obs) {
             }
             if let Some(res) = form.dict().resources.as_ref() {
                 o.put(|| format!("{}.form.resources", key), || format!("fonts={}", res.fonts.len()));
+                if let (Some(w), true) = (nested, depth > 0) {
+                    walk_resources_d(&format!("{}.form.res", key), res, r, o, w, depth - 1);
+                }
             }
         }
         XObject::Postscript(_) => o.put(|| format!("{}.ps", key), || "ps".into()),
+    }
+}
+
+fn walk_appearance(key: &str, e: &pdf::object::AppearanceStreamEntry, r: &impl Resolve, o: &mut Obs, depth: usize) {
+    use pdf::object::AppearanceStreamEntry;
+    match e {
+        AppearanceStreamEntry::Single(form) => match form.operations(r) {
+            Ok(ops) => o.put(|| format!("{}.ops", key), || format!("{} ops #{:016x}", ops.len(), fnv(format!("{:?}", ops).as_bytes()))),
+            Err(e) => o.err(|| format!("{}.ops", key), &e),
+        },
+        AppearanceStreamEntry::Dict(d) => {
+            let mut names: Vec<&pdf::primitive::Name> = d.keys().collect();
+            names.sort();
+            o.put(|| format!("{}.states", key), || names.iter().take(20).map(|n| n.as_str().to_string()).collect::<Vec<_>>().join(","));
+            if depth > 0 {
+                for n in names.into_iter().take(20) {
+                    walk_appearance(&format!("{}[{}]", key, n.as_str()), &d[n], r, o, depth - 1);
+                }
+            }
+        }
+    }
+}
+
+fn walk_field(key: &str, f: &pdf::object::FieldDictionary, r: &impl Resolve, o: &mut Obs, depth: usize, budget: &mut u64) {
+    o.put(|| key.to_string(), || format!("{:?} type={:?} kids={}", f.name.as_ref().map(|n| n.to_string_lossy()), f.typ, f.kids.len()));
+    if let Some(p) = f.parent {
+        match r.get(p) {
+            Ok(pf) => o.put(|| format!("{}.parent", key), || format!("{:?}", pf.name.as_ref().map(|n| n.to_string_lossy()))),
+            Err(e) => o.err(|| format!("{}.parent", key), &e),
+        }
+    }
+    if depth == 0 {
+        return;
+    }
+    for (i, k) in f.kids.iter().take(20).enumerate() {
+        if *budget == 0 {
+            return;
+        }
+        *budget -= 1;
+        match r.get(*k) {
+            Ok(kf) => walk_field(&format!("{}.kid[{}]", key, i), &kf, r, o, depth - 1, budget),
+            Err(e) => o.err(|| format!("{}.kid[{}]", key, i), &e),
+        }
     }
 }
 
@@ -173,6 +233,10 @@ fn walk_colorspace(key: &str, cs: &pdf::object::ColorSpace, o: &mut Obs, depth: 
 }
 
 fn walk_resources(key: &str, res: &Resources, r: &impl Resolve, o: &mut Obs, w: &WalkOpts) {
+    walk_resources_d(key, res, r, o, w, 2)
+}
+
+fn walk_resources_d(key: &str, res: &Resources, r: &impl Resolve, o: &mut Obs, w: &WalkOpts, depth: usize) {
     let mut names: Vec<&pdf::primitive::Name> = res.fonts.keys().collect();
     names.sort();
     for n in names.into_iter().take(40) {
@@ -187,7 +251,7 @@ fn walk_resources(key: &str, res: &Resources, r: &impl Resolve, o: &mut Obs, w: 
     for n in names.into_iter().take(40) {
         let k = format!("{}.xobject[{}]", key, n.as_str());
         match r.get(res.xobjects[n]) {
-            Ok(x) => walk_xobject(&k, &x, r, o),
+            Ok(x) => walk_xobject_d(&k, &x, r, o, Some(w), depth),
             Err(e) => o.err(|| k, &e),
         }
     }
@@ -215,6 +279,12 @@ fn walk_resources(key: &str, res: &Resources, r: &impl Resolve, o: &mut Obs, w: 
     for n in names.into_iter().take(40) {
         let gs = &res.graphics_states[n];
         o.put(|| format!("{}.gs[{}]", key, n.as_str()), || format!("lw={:?}", gs.line_width));
+        if let Some((f, size)) = gs.font {
+            match r.get(f) {
+                Ok(font) => o.put(|| format!("{}.gs[{}].font", key, n.as_str()), || format!("{:?} {}", font.name.as_ref().map(|n| n.as_str().to_string()), size)),
+                Err(e) => o.err(|| format!("{}.gs[{}].font", key, n.as_str()), &e),
+            }
+        }
     }
     o.put(|| format!("{}.properties", key), || format!("{}", res.properties.len()));
 }
@@ -273,7 +343,22 @@ where
                     }
                 }
                 match page.annotations.load(&r) {
-                    Ok(a) => o.put(|| format!("{}.annots", key), || format!("{} [{}]", a.len(), a.iter().take(20).map(|x| x.subtype.as_str().to_string()).collect::<Vec<_>>().join(","))),
+                    Ok(a) => {
+                        o.put(|| format!("{}.annots", key), || format!("{} [{}]", a.len(), a.iter().take(20).map(|x| x.subtype.as_str().to_string()).collect::<Vec<_>>().join(",")));
+                        for (ai, an) in a.iter().take(20).enumerate() {
+                            if let Some(ap) = an.appearance_streams.as_ref() {
+                                let k = format!("{}.annot[{}].ap", key, ai);
+                                for (label, e) in [("N", Some(ap.normal)), ("R", ap.rollover), ("D", ap.down)] {
+                                    if let Some(e) = e {
+                                        match r.get(e) {
+                                            Ok(entry) => walk_appearance(&format!("{}.{}", k, label), &entry, &r, o, 6),
+                                            Err(e) => o.err(|| format!("{}.{}", k, label), &e),
+                                        }
+                                    }
+                                }
+                            }
+                        }
+                    }
                     Err(e) => o.err(|| format!("{}.annots", key), &e),
                 }
                 o.put(|| format!("{}.other", key), || format!("{}", page.other.len()));
@@ -343,6 +428,33 @@ where
             match r.get(item_ref) {
                 Ok(item) => {
                     o.put(|| format!("outline[{}]", steps), || format!("obj {} title={:?} dest={} action={}", item_ref.get_inner().id, item.title.as_ref().map(|t| t.to_string_lossy()), item.dest.is_some(), item.action.is_some()));
+                    // the first level of children, and the back links
+                    let mut child = item.first;
+                    let mut csteps = 0u64;
+                    while let Some(c) = child {
+                        csteps += 1;
+                        if csteps > nobj.min(50) {
+                            break;
+                        }
+                        match r.get(c) {
+                            Ok(ci) => {
+                                o.put(|| format!("outline[{}].child[{}]", steps, csteps), || format!("obj {} title={:?}", c.get_inner().id, ci.title.as_ref().map(|t| t.to_string_lossy())));
+                                child = ci.next;
+                            }
+                            Err(e) => {
+                                o.err(|| format!("outline[{}].child[{}]", steps, csteps), &e);
+                                break;
+                            }
+                        }
+                    }
+                    for (label, l) in [("prev", item.prev), ("last", item.last)] {
+                        if let Some(l) = l {
+                            match r.get(l) {
+                                Ok(_) => o.put(|| format!("outline[{}].{}", steps, label), || format!("obj {}", l.get_inner().id)),
+                                Err(e) => o.err(|| format!("outline[{}].{}", steps, label), &e),
+                            }
+                        }
+                    }
                     cur = item.next;
                 }
                 Err(e) => {
@@ -354,6 +466,27 @@ where
     }
     if let Some(forms) = cat.forms.as_ref() {
         o.put(|| "acroform".into(), || format!("{} fields [{}]", forms.fields.len(), forms.fields.iter().take(20).map(|f| format!("{:?}", f.name.as_ref().map(|n| n.to_string_lossy()))).collect::<Vec<_>>().join(",")));
+    }
+    if let Some(forms) = cat.forms.as_ref() {
+        let mut budget = nobj.min(200);
+        for (i, f) in forms.fields.iter().take(20).enumerate() {
+            walk_field(&format!("acroform.field[{}]", i), f, &r, o, 8, &mut budget);
+        }
+    }
+    if let Some(st) = cat.struct_tree_root.as_ref() {
+        o.put(|| "struct_tree".into(), || format!("{} children", st.children.len()));
+        for (i, c) in st.children.iter().take(20).enumerate() {
+            match r.get(c.parent) {
+                Ok(p) => o.put(|| format!("struct_tree.child[{}].parent", i), || format!("{:?}", p.struct_type)),
+                Err(e) => o.err(|| format!("struct_tree.child[{}].parent", i), &e),
+            }
+            if let Some(pg) = c.page {
+                match r.get(pg) {
+                    Ok(_) => o.put(|| format!("struct_tree.child[{}].page", i), || format!("obj {}", pg.get_inner().id)),
+                    Err(e) => o.err(|| format!("struct_tree.child[{}].page", i), &e),
+                }
+            }
+        }
     }
     if let Some(m) = cat.metadata {
         match r.get(m) {
